@@ -23,7 +23,9 @@ const CHILDREN_CACHE_THRESHOLD: usize = 3;
 /// You can re-use the same cache for multiple similar trees with [`GreenNodeBuilder::with_cache`].
 #[derive(Debug)]
 pub struct NodeCache<'i, I = TokenInterner> {
-    nodes:    FxHashMap<GreenNodeHead, GreenNode>,
+    // Nodes are bucketed by their head (kind, text length and a 32-bit hash of the children). Distinct nodes
+    // may share a head, so each bucket holds every cached node with that head.
+    nodes:    FxHashMap<GreenNodeHead, Vec<GreenNode>>,
     tokens:   FxHashMap<GreenTokenData, GreenToken>,
     interner: MaybeOwned<'i, I>,
 }
@@ -225,10 +227,21 @@ where
             text_len,
             child_hash,
         };
-        self.nodes
-            .entry(head)
-            .or_insert_with_key(|head| GreenNode::from_head_and_children(head.clone(), children))
-            .clone()
+        // A matching head does not imply matching children (hash collision), so only re-use a cached node if
+        // its children are the same. Children that are themselves shared compare by pointer first.
+        let bucket = self.nodes.entry(head.clone()).or_default();
+        let cached = bucket.iter().find(|node| {
+            node.children()
+                .eq(children.as_slice().iter().map(|child| child.as_ref()))
+        });
+        match cached {
+            Some(node) => node.clone(),
+            None => {
+                let node = GreenNode::from_head_and_children(head, children);
+                bucket.push(node.clone());
+                node
+            }
+        }
     }
 
     fn token<S: Syntax>(&mut self, kind: S, text: Option<TokenKey>, len: u32) -> GreenToken {
